@@ -120,6 +120,7 @@ pub mod verif_hooks {
   pub use super::indent::{
     extract_with_deindent, formatted_slice, get_indent_at_offset, indent_lines, DeindentedExtract,
   };
+  pub use super::template::verif_hooks::template_parts;
   /// `split_first_meta_var` with its private result type flattened:
   /// (0 = single, 1 = multiple, 2 = transformed; name; bytes consumed)
   pub fn split_first_meta_var(
